@@ -122,6 +122,7 @@ func NewMetricRegistryWithClient(
 func (r *MetricRegistry) Start() {
 	r.mu.Lock()
 	if !r.started {
+		r.started = true
 		r.wg.Add(1)
 		go func() {
 			defer r.wg.Done()
